@@ -5,7 +5,7 @@ from props import common, c07
 
 LEVEL = 'proof'
 MODULES = ['TlsModel.Props.C01', 'TlsModel.Props.C01Weight']
-HEAP_A, HEAP_B = 640, 131072          # peak heap <= A*len + B  (A ~ 2 x size_of the largest element type per consumed byte, nom's doubling)
+HEAP_A, HEAP_B = 640, 2 * 1024 * 1024     # peak heap <= A*len + B: A ~ 2 x size_of the largest element type per consumed byte (nom doubling); B generous, so that a fixed pre-allocation (a record-sized or even 1 MiB buffer) is not mistaken for growth with a *declared* length
 
 PLAIN_OPS = ['tls_header', 'tls_raw', 'tls_encrypted', 'tls_plaintext', 'tls_parser', 'tls_many', 'msg_ccs', 'msg_alert', 'msg_appdata',
              'msg_handshake', 'hs_hello_request', 'hs_client_hello', 'hs_msg_client_hello', 'hs_server_hello', 'hs_msg_server_hello',
